@@ -458,6 +458,9 @@ type c36Artefact struct {
 	Method  string   `json:"method,omitempty"`
 	Proto   string   `json:"proto,omitempty"`
 	Request string   `json:"request"` // Go-quoted bytes
+	// Part C: the whole sequence converted into one reused http.Request (Go-quoted), Request is its last element
+	Requests  []string `json:"requests,omitempty"`
+	ForServer bool     `json:"for_server,omitempty"`
 }
 
 type c36Counters struct {
@@ -795,8 +798,20 @@ func c36CheckB(r *vrt.R, raw []byte, cnt *c36CountersB) {
 		r.Sample(map[string]any{"part": "B", "request": vrt.Q(raw), "nethttp": map[string]any{"method": want.Method, "url": want.URL, "proto": want.Proto, "host": want.Host, "header": want.Header, "body": string(want.Body)},
 			"converted": map[string]any{"method": got.Method, "url": got.URL, "proto": got.Proto, "minor": got.Minor, "host": got.Host, "header": got.Header, "body": string(got.Body)}})
 	}
+	for _, d := range c36CompareParsed(raw, &want, &got) {
+		r.Violation("B:"+d.Sig, fmt.Sprintf("%s: %s", vrt.Q(raw), d.What), art)
+	}
+}
+
+// c36Diff is one difference between a converted request and net/http's parse, with the class it belongs to.
+type c36Diff struct{ Sig, What string }
+
+// c36CompareParsed is the oracle of Part B and Part C: every field the statement lists, including that the Header
+// map has no key net/http's parse does not have (a key with an empty value list is still a key).
+func c36CompareParsed(raw []byte, want, got *c36Parsed) []c36Diff {
+	var out []c36Diff
 	viol := func(sig, what string) {
-		r.Violation("B:"+sig, fmt.Sprintf("%s: %s", vrt.Q(raw), what), art)
+		out = append(out, c36Diff{sig, what})
 	}
 	if got.Method != want.Method {
 		viol("method-differs", fmt.Sprintf("Method %q, net/http %q", got.Method, want.Method))
@@ -851,6 +866,12 @@ func c36CheckB(r *vrt.R, raw []byte, cnt *c36CountersB) {
 	sort.Strings(sorted)
 	for _, n := range sorted {
 		w, g := want.Header[n], got.Header[n]
+		if _, inGot := got.Header[n]; inGot && len(g) == 0 {
+			if _, inWant := want.Header[n]; !inWant {
+				viol("header-key-with-no-values", fmt.Sprintf("Header has the key %q with an empty value list, net/http's Header has no such key", n))
+				continue
+			}
+		}
 		if len(w) == len(g) {
 			same := true
 			for i := range w {
@@ -898,6 +919,170 @@ func c36CheckB(r *vrt.R, raw []byte, cnt *c36CountersB) {
 			sig += "-chunked"
 		}
 		viol(sig, fmt.Sprintf("body %q (%s), net/http %q", got.Body, got.BodyErr, want.Body))
+	}
+	return out
+}
+
+// ---------------------------------------------------------------------------------------------------------------
+// Part C: ConvertRequest into ONE reused http.Request (the documented usage: "Memory in use by the http.Request will
+// be reused"). After each conversion of a sequence the reused request must equal net/http's parse of that request's
+// bytes alone, exactly as in Part B.
+
+type c36ReuseItem struct {
+	raw       []byte
+	want      c36Parsed
+	ctx       *fasthttp.RequestCtx
+	fresh     [2]c36Parsed       // conversion into a fresh http.Request, forServer=false/true
+	freshDiff [2]map[string]bool // differences (Sig+What) the fresh conversion already has against net/http (Part B's business)
+}
+
+// c36ReuseRequests returns the requests of the slot product with at most maxDev non-canonical slots that both
+// parsers accept.
+func c36ReuseRequests(slots []c36Slot, maxDev int) [][]byte {
+	dims := make([]int, len(slots))
+	for i, s := range slots {
+		dims[i] = len(s.Vals)
+	}
+	var out [][]byte
+	seqx.Product(dims, maxDev, func(idx []int) bool {
+		raw := c36BuildReqB(slots, idx)
+		if hr, err := http.ReadRequest(bufio.NewReader(bytes.NewReader(raw))); err != nil {
+			return true
+		} else if _, err := io.ReadAll(hr.Body); err != nil {
+			return true
+		}
+		var req fasthttp.Request
+		if req.Read(bufio.NewReader(bytes.NewReader(raw))) != nil {
+			return true
+		}
+		out = append(out, raw)
+		return true
+	})
+	return out
+}
+
+// c36ReuseItems parses every request (own RequestCtx objects: ConvertRequest mutates lazily parsed state of the ctx,
+// so they are never shared between shards).
+func c36ReuseItems(r *vrt.R, reqs [][]byte) []*c36ReuseItem {
+	items := make([]*c36ReuseItem, len(reqs))
+	for i, raw := range reqs {
+		it := &c36ReuseItem{raw: raw, ctx: new(fasthttp.RequestCtx)}
+		hr, err := http.ReadRequest(bufio.NewReader(bytes.NewReader(raw)))
+		if err != nil {
+			c36ToolError(r, "reuse: net/http rejects %s: %v", vrt.Q(raw), err)
+		}
+		it.want = c36Snapshot(hr)
+		var empty fasthttp.Request
+		it.ctx.Init(&empty, &net.TCPAddr{IP: net.IPv4(10, 0, 0, 1), Port: 1234}, c36NopLogger{})
+		if err := it.ctx.Request.Read(bufio.NewReader(bytes.NewReader(raw))); err != nil {
+			c36ToolError(r, "reuse: fasthttp rejects %s: %v", vrt.Q(raw), err)
+		}
+		for mode := 0; mode < 2; mode++ {
+			var cr http.Request
+			if err := ConvertRequest(it.ctx, &cr, mode == 1); err != nil {
+				c36ToolError(r, "reuse: ConvertRequest fails for %s: %v", vrt.Q(raw), err)
+			}
+			it.fresh[mode] = c36Snapshot(&cr)
+			it.freshDiff[mode] = map[string]bool{}
+			for _, d := range c36CompareParsed(raw, &it.want, &it.fresh[mode]) {
+				it.freshDiff[mode][d.Sig+"|"+d.What] = true
+			}
+		}
+		items[i] = it
+	}
+	return items
+}
+
+func c36ParsedEqual(a, b *c36Parsed) bool {
+	if a.Method != b.Method || a.URL != b.URL || a.Path != b.Path || a.RawPath != b.RawPath || a.RawQuery != b.RawQuery ||
+		a.Scheme != b.Scheme || a.URLHost != b.URLHost || a.Proto != b.Proto || a.Major != b.Major || a.Minor != b.Minor ||
+		a.Host != b.Host || a.BodyErr != b.BodyErr || !bytes.Equal(a.Body, b.Body) || len(a.Header) != len(b.Header) {
+		return false
+	}
+	for k, av := range a.Header {
+		bv, ok := b.Header[k]
+		if !ok || len(av) != len(bv) {
+			return false
+		}
+		for i := range av {
+			if av[i] != bv[i] {
+				return false
+			}
+		}
+	}
+	return true
+}
+
+type c36CountersC struct {
+	seqs, convs, staleKeys, prevBody, protoChange, targetChange int64
+}
+
+func (c *c36CountersC) flush(r *vrt.R) {
+	r.Add("c_sequences", c.seqs)
+	r.Add("c_conversions_into_reused_request", c.convs)
+	r.Add("c_conversions_previous_had_header_key_absent_now", c.staleKeys)
+	r.Add("c_conversions_previous_had_body_now_none", c.prevBody)
+	r.Add("c_conversions_proto_changed", c.protoChange)
+	r.Add("c_conversions_target_changed", c.targetChange)
+	*c = c36CountersC{}
+}
+
+// c36CheckC converts items[seq[0]], items[seq[1]], ... into one http.Request and judges the request after each step.
+func c36CheckC(r *vrt.R, items []*c36ReuseItem, seq []int, forServer bool, cnt *c36CountersC) {
+	mode := 0
+	if forServer {
+		mode = 1
+	}
+	var hr http.Request
+	cnt.seqs++
+	for step, idx := range seq {
+		it := items[idx]
+		cnt.convs++
+		if step > 0 {
+			prev := items[seq[step-1]]
+			for k := range prev.want.Header {
+				if _, ok := it.want.Header[k]; !ok {
+					cnt.staleKeys++
+					break
+				}
+			}
+			if len(prev.want.Body) > 0 && len(it.want.Body) == 0 {
+				cnt.prevBody++
+			}
+			if prev.want.Proto != it.want.Proto {
+				cnt.protoChange++
+			}
+			if prev.want.URL != it.want.URL {
+				cnt.targetChange++
+			}
+		}
+		art := func() c36Artefact {
+			a := c36Artefact{Part: "C", ForServer: forServer, Request: vrt.Q(it.raw)}
+			for _, j := range seq[:step+1] {
+				a.Requests = append(a.Requests, vrt.Q(items[j].raw))
+			}
+			return a
+		}
+		if err := ConvertRequest(it.ctx, &hr, forServer); err != nil {
+			r.Violation("B:reuse-convert-error-"+c36ErrWord(err), fmt.Sprintf("ConvertRequest into a reused http.Request fails with %v at step %d", err, step), art())
+			return
+		}
+		got := c36Snapshot(&hr)
+		if c36ParsedEqual(&got, &it.fresh[mode]) {
+			continue // identical to the conversion into a fresh http.Request, which Part B judges against net/http
+		}
+		reported := false
+		for _, d := range c36CompareParsed(it.raw, &it.want, &got) {
+			if it.freshDiff[mode][d.Sig+"|"+d.What] {
+				continue // the same difference exists without reuse: Part B reports it under its own class
+			}
+			reported = true
+			r.Violation("B:reuse-"+d.Sig, fmt.Sprintf("conversion %d into one reused http.Request (forServer=%v), after %s, of %s: %s",
+				step+1, forServer, vrt.Q(items[seq[step-min(step, 1)]].raw), vrt.Q(it.raw), d.What), art())
+		}
+		if !reported {
+			c36ToolError(r, "reuse: the reused request differs from the fresh conversion but the oracle names no difference: %+v vs %+v", got, it.fresh[mode])
+		}
 	}
 }
 
@@ -954,6 +1139,22 @@ func TestVerif_C36(t *testing.T) {
 			var cnt c36CountersB
 			c36CheckB(r, []byte(raw), &cnt)
 			r.Eval(1)
+		case "C":
+			var reqs [][]byte
+			for _, q := range a.Requests {
+				raw, err := strconv.Unquote(q)
+				if err != nil {
+					c36ToolError(r, "replay: bad request quoting: %v", err)
+				}
+				reqs = append(reqs, []byte(raw))
+			}
+			seq := make([]int, len(reqs))
+			for i := range seq {
+				seq[i] = i
+			}
+			var cnt c36CountersC
+			c36CheckC(r, c36ReuseItems(r, reqs), seq, a.ForServer, &cnt)
+			r.Eval(1)
 		default:
 			c36ToolError(r, "replay: unknown part %q", a.Part)
 		}
@@ -976,6 +1177,7 @@ func TestVerif_C36(t *testing.T) {
 		"oracle: final (non-1xx) response has equal status, equal multiset of values for each handler-set field (X-A, X-B, Content-Type when the program sets it) and equal body bytes; "+
 		"the net/http response is itself cross-checked against a transcription of the ResponseWriter contract (tool error on disagreement). "+
 		"Part B: full product of request slots %v parsed by http.ReadRequest and by fasthttp Request.Read+ConvertRequest; oracle: equal Method, URL (String/Path/RawPath/RawQuery/Scheme/Host), Proto/ProtoMajor/ProtoMinor, Host, Header (ordered values per canonical name) and body bytes. "+
+		"Part C: all ordered sequences of 2 (quick) / 3 (thorough; plus pairs over the larger thorough slot values) requests drawn from the requests of the Part B slot product with at most 2 non-canonical slots, converted one after the other into ONE reused http.Request with forServer false and true; oracle after every conversion: the Part B comparison against net/http's parse of that request alone, and no Header key net/http does not have (even with an empty value list). "+
 		"Non-trivial: A-cases whose reference response differs from the empty program's (status, handler field, body or interim response); B-cases both parsers accept.",
 		maxOps, opNames, dims))
 	r.Assume("net/http (server, ReadRequest, ReadResponse) is the reference the statement names",
@@ -1010,6 +1212,57 @@ func TestVerif_C36(t *testing.T) {
 		r.Add("b_cases_chunked", cnt.chunked)
 		r.Add("b_cases_http10", cnt.http10)
 		r.Add("b_cases_absolute_form", cnt.absolute)
+	}
+
+	// ---- Part C (reuse of one http.Request)
+	if only != "A" {
+		quickSlots := c36SlotsB(false)
+		type job struct {
+			reqs [][]byte
+			n    int
+		}
+		jobs := []job{{c36ReuseRequests(quickSlots, 2), 2}}
+		if r.Thorough() {
+			jobs = []job{{c36ReuseRequests(quickSlots, 2), 3}, {c36ReuseRequests(slots, 2), 2}}
+		}
+		for ji, jb := range jobs {
+			r.Set(fmt.Sprintf("c_job%d", ji), fmt.Sprintf("all ordered sequences of %d requests over %d requests x forServer{false,true}", jb.n, len(jb.reqs)))
+			r.Par(len(jb.reqs), func(first int) {
+				if c36Failed.Load() {
+					return
+				}
+				items := c36ReuseItems(r, jb.reqs)
+				var cnt c36CountersC
+				seq := make([]int, jb.n)
+				seq[0] = first
+				var rec func(pos int) bool
+				rec = func(pos int) bool {
+					if pos == jb.n {
+						c36CheckC(r, items, seq, false, &cnt)
+						c36CheckC(r, items, seq, true, &cnt)
+						return true
+					}
+					for j := range items {
+						seq[pos] = j
+						if !rec(pos + 1) {
+							return false
+						}
+					}
+					if pos == 1 && (c36Failed.Load() || r.Expired()) {
+						return false
+					}
+					return true
+				}
+				if !rec(1) && !c36Failed.Load() {
+					r.NotExhaustive(fmt.Sprintf("time budget reached inside reuse job %d, first request %d", ji, first))
+				}
+				r.Eval(int(cnt.seqs))
+				if cnt.staleKeys > 0 {
+					r.Nontrivial(fmt.Sprintf("C|%d|%d", ji, first))
+				}
+				cnt.flush(r)
+			})
+		}
 	}
 
 	// ---- Part A
